@@ -426,6 +426,12 @@ func (g *Gen) fieldOf(st *State, base, field string, env map[string]Val) Val {
 			panic(specErr{"spec: cannot type " + base + " in " + base + "." + field})
 		}
 		under := t.Underlying()
+		if _, isStruct := under.(*types.Struct); isStruct && cur.Kind == "opaque" && cur.T != "" {
+			// a struct value that was loaded through a pointer keeps the pointer's identity (instr.go load):
+			// its fields are the heap fields of that object
+			t = types.NewPointer(t)
+			under = t.Underlying()
+		}
 		if pt, ok := under.(*types.Pointer); ok {
 			stt, ok := pt.Elem().Underlying().(*types.Struct)
 			if !ok {
